@@ -7,8 +7,10 @@ VARIABLE l
 Ev == Trace[l]
 
 T(e) == [ins |-> e.tx.ins, outs |-> e.tx.outs]
-IsListing(e) == e.flow \in {"list", "list2d"}
-SpecFlow(e) == IF e.flow = "list" THEN Listing(e.price, e.us, e.q, e.sellerSlen) ELSE Listing2D(e.price, e.us, e.q, e.sellerSlen)
+SpecFlow(e) == CASE e.flow = "list" -> Listing(e.price, e.us, e.q, e.sellerSlen)
+                 [] e.flow = "list2d" -> Listing2D(e.price, e.us, e.q, e.sellerSlen)
+                 [] e.flow = "bid" -> Bid(e.price, e.us, e.q, e.sellerSlen)
+                 [] e.flow = "bid2d" -> Bid2D(e.price, e.us, e.q, e.sellerSlen)
 \* roles and amounts of everything but the change output
 Shape(t) == [ins |-> [k \in 1..Len(t.ins) |-> <<t.ins[k].owner, t.ins[k].sats, t.ins[k].ord>>],
              outs |-> [k \in 1..Len(SelectSeq(t.outs, LAMBDA o : o.role # "change")) |->
@@ -16,8 +18,8 @@ Shape(t) == [ins |-> [k \in 1..Len(t.ins) |-> <<t.ins[k].owner, t.ins[k].sats, t
 
 Why(e) ==
     IF ~e.ok THEN
-         \* a listing the specification completes *and* that pays its fee must not be refused
-         IF IsListing(e) /\ SpecFlow(e).ok /\ FeePaid(Signed(SpecFlow(e).tx), e.q) THEN "refused" ELSE "fine"
+         \* a flow the specification completes *and* that pays its fee for any signature size must not be refused
+         IF SpecFlow(e).ok /\ FeePaid(SignedMax(SpecFlow(e).tx), e.q) THEN "refused" ELSE "fine"
     ELSE LET t == T(e) IN
          IF \E k \in 1..Len(e.valid) : ~e.valid[k] THEN "input-invalid"
          ELSE IF Len(e.valid) # Len(t.ins) THEN "input-invalid"
@@ -27,7 +29,7 @@ Why(e) ==
               THEN "seller-output"
          ELSE IF ~FeePaid(t, e.q) THEN "fee-underpaid"
          ELSE IF e.size # Sizes(t).total THEN "size"
-         ELSE IF IsListing(e) /\ ~(SpecFlow(e).ok /\ Shape(SpecFlow(e).tx) = Shape(t)) THEN "shape"
+         ELSE IF ~(SpecFlow(e).ok /\ Shape(SpecFlow(e).tx) = Shape(t)) THEN "shape"
          ELSE "fine"
 
 \* inscriptions: the locking script is prefix + envelope, and parsing gives the parts back
